@@ -253,6 +253,51 @@ fn fields_case(y: i32, mo: u8, d: u8, h: u8, mi: u8, s: u8, ns: u32, off: i32, r
     }
 }
 
+/// format specifications (width, fill, alignment, precision, sign, alternate): ignored or applied to the text as a whole (C18);
+/// every feature configuration must do the same (C19): the rendered text is folded into the returned digest
+fn check_format_specs(rec: &Recorder) -> u64 {
+    let mut f = Fnv::default();
+    let mut n = 0u64;
+    let samples: Vec<DateTime> = [(0i64, 0u32, 0i32), (1_700_000_000, 123_456_789, 19_800), (-62_135_596_801, 999_999_999, -1), (crate::cal::MAX_UNIX_TIME - (1 << 31) - 10, 5, i32::MAX), (crate::cal::MIN_UNIX_TIME + (1 << 31) + 10, 0, i32::MIN + 1)]
+        .iter()
+        .filter_map(|&(t, ns, off)| DateTime::from_timespec_and_local(t, ns, LocalTimeType::with_ut_offset(off).ok()?).ok())
+        .collect();
+    macro_rules! spec {
+        ($($s:literal),*) => {
+            for d in &samples {
+                let u = UtcDateTime::from_timespec(d.unix_time(), d.nanoseconds()).ok();
+                let mut canon = Buf::new();
+                let _ = write!(canon, "{}", d);
+                let canon_str = core::str::from_utf8(canon.as_bytes()).unwrap_or("");
+                $(
+                    let mut b = Buf::new();
+                    let _ = write!(b, $s, d);
+                    // C18: options either are ignored or apply to the text as a whole (what Formatter::pad does to a string);
+                    // they never reach into a field
+                    let mut padded = Buf::new();
+                    let _ = write!(padded, $s, canon_str);
+                    if b.as_bytes() != canon.as_bytes() && b.as_bytes() != padded.as_bytes() {
+                        rec.violation("format_specifications", json!({"kind":"spec","spec":$s,"t":d.unix_time(),"ns":d.nanoseconds(),"offset":d.local_time_type().ut_offset()}), json!({"either": canon_str, "or": String::from_utf8_lossy(padded.as_bytes())}), json!(String::from_utf8_lossy(b.as_bytes())));
+                    }
+                    f.bytes(b.as_bytes());
+                    f.bytes(b"|");
+                    if let Some(u) = &u {
+                        let mut b = Buf::new();
+                        let _ = write!(b, $s, u);
+                        f.bytes(b.as_bytes());
+                        f.bytes(b"|");
+                    }
+                    n += 1;
+                )*
+            }
+        };
+    }
+    spec!("{}", "{:40}", "{:<40}", "{:>40}", "{:^41}", "{:*^50}", "{:.10}", "{:.0}", "{:40.10}", "{:>60.5}", "{:^33.33}", "{:+}", "{:#}", "{:010}", "{:1}", "{:.100}", "{:3.3}");
+    let _ = n;
+    rec.sub("format_specifications", json!({"renderings": n, "digest": format!("{:016x}", f.0), "note": "judged: each rendering equals the plain text or the plain text padded / truncated as a whole; also compared across feature configurations (C19)"}));
+    f.0
+}
+
 pub fn run(args: &Args) -> i32 {
     let rec = Recorder::new(args, "exploration");
     let thorough = args.thorough();
@@ -458,39 +503,8 @@ pub fn run(args: &Args) -> i32 {
     rec.sub("small_product", json!({"evaluations": tl.evals}));
     total = total.merge(tl);
 
-    // (4) format specifications (width, fill, alignment, precision, sign, alternate): what they do is not part of C18, but
-    // every feature configuration must do the same (C19): rendered text folded into the digest
-    {
-        let mut f = Fnv::default();
-        let mut n = 0u64;
-        let samples: Vec<DateTime> = [(0i64, 0u32, 0i32), (1_700_000_000, 123_456_789, 19_800), (-62_135_596_801, 999_999_999, -1), (crate::cal::MAX_UNIX_TIME - (1 << 31) - 10, 5, i32::MAX), (crate::cal::MIN_UNIX_TIME + (1 << 31) + 10, 0, i32::MIN + 1)]
-            .iter()
-            .filter_map(|&(t, ns, off)| DateTime::from_timespec_and_local(t, ns, LocalTimeType::with_ut_offset(off).ok()?).ok())
-            .collect();
-        macro_rules! spec {
-            ($($s:literal),*) => {
-                for d in &samples {
-                    let u = UtcDateTime::from_timespec(d.unix_time(), d.nanoseconds()).ok();
-                    $(
-                        let mut b = Buf::new();
-                        let _ = write!(b, $s, d);
-                        f.bytes(b.as_bytes());
-                        f.bytes(b"|");
-                        if let Some(u) = &u {
-                            let mut b = Buf::new();
-                            let _ = write!(b, $s, u);
-                            f.bytes(b.as_bytes());
-                            f.bytes(b"|");
-                        }
-                        n += 1;
-                    )*
-                }
-            };
-        }
-        spec!("{}", "{:40}", "{:<40}", "{:>40}", "{:^41}", "{:*^50}", "{:.10}", "{:.0}", "{:40.10}", "{:>60.5}", "{:^33.33}", "{:+}", "{:#}", "{:010}", "{:1}", "{:.100}", "{:3.3}");
-        rec.sub("format_specifications", json!({"renderings": n, "digest": format!("{:016x}", f.0), "note": "C19 only: not judged, compared across feature configurations"}));
-        total.digest = total.digest.wrapping_add(f.0);
-    }
+    // (4) format specifications
+    total.digest = total.digest.wrapping_add(check_format_specs(&rec));
 
     rec.add(total.evals, total.nontrivial);
     rec.digest("fmt", total.digest);
@@ -516,6 +530,9 @@ pub fn replay(case: &Value, args: &Args) -> i32 {
     for _ in 0..2 {
         match case["kind"].as_str().unwrap_or("") {
             "offset" => offset_case(g("offset") as i32, g("t"), g("ns") as u32, &rec, "replay", &mut tl),
+            "spec" => {
+                check_format_specs(&rec);
+            }
             "fields" => fields_case(g("y") as i32, g("mo") as u8, g("d") as u8, g("h") as u8, g("mi") as u8, g("s") as u8, g("ns") as u32, g("offset") as i32, &rec, &mut tl),
             _ => return 2,
         }
